@@ -1075,16 +1075,211 @@ Proof.
   destruct (governed_run _ mid k v _ I1 G1 Hn I) as [[G2 _] _]. exact G2.
 Qed.
 
+Lemma fire_late_safe_inv s i : Inv s ->
+  let r := step true s (OFireLate i) in
+  snd r = (false, []) /\ data (fst r) = data s /\ listeners (fst r) = listeners s /\
+  tmap (fst r) = tmap s /\ (forall k, live_deadline (fst r) k = live_deadline s k) /\ now (fst r) = now s.
+Proof.
+  intros HI r. subst r. cbn [step].
+  destruct (nth_error (timers s) i) as [t|] eqn:Hi; [|cbn; auto 7].
+  destruct (t_state t) eqn:Hs; try (cbn; auto 7).
+  destruct (fire_stopped_ok s i t HI Hi Hs) as (F & _ & (_ & E2 & _)). rewrite F. cbn [fst snd data listeners tmap now].
+  repeat split; auto.
+Qed.
+
 (* fire_late_safe: the callback of a superseded timer changes nothing *)
 Theorem fire_late_safe ops i :
   let s := run true ops in
   let r := step true s (OFireLate i) in
   snd r = (false, []) /\ data (fst r) = data s /\ listeners (fst r) = listeners s /\
   tmap (fst r) = tmap s /\ (forall k, live_deadline (fst r) k = live_deadline s k) /\ now (fst r) = now s.
+Proof. intros s. apply fire_late_safe_inv. apply inv_run. Qed.
+
+(* =================== the trace predicate holds on every trace of the repaired model *)
+
+Definition PSim (s : state) (p : pstate) : Prop :=
+  speq (abs s) (p_spec p) /\
+  (forall l, In l (listeners s) <-> In l (map fst (p_reps p))) /\
+  (forall e, In e (p_reps p) -> snd e = data s).
+
+Lemma rep_remove_in l reps e : In e (rep_remove l reps) <-> In e reps /\ fst e <> l.
 Proof.
-  intros s r. assert (HI : Inv s) by apply inv_run. subst r. cbn [step].
-  destruct (nth_error (timers s) i) as [t|] eqn:Hi; [|cbn; auto 7].
-  destruct (t_state t) eqn:Hs; try (cbn; auto 7).
-  destruct (fire_stopped_ok s i t HI Hi Hs) as (F & _ & (_ & E2 & _)). rewrite F. cbn [fst snd data listeners tmap now].
-  repeat split; auto.
+  unfold rep_remove. rewrite filter_In. split; intros [A B]; (split; [exact A|]).
+  - intros E. rewrite E, N.eqb_refl in B. discriminate.
+  - destruct (N.eqb_spec l (fst e)); [congruence|reflexivity].
 Qed.
+
+Lemma reps0_prev s p o e : PSim s p -> In e (joined_after (p_reps p) o) ->
+  exists r, RepInv (fst e) s r /\ join_leave (fst e) o r = Some (snd e).
+Proof.
+  intros (_ & HL & HR) Hin.
+  assert (Hold : In e (p_reps p) -> RepInv (fst e) s (Some (snd e))).
+  { intros H. split; [apply HL; now apply in_map|now apply HR]. }
+  destruct o as [| | | |l0|l0| |]; cbn [joined_after] in Hin;
+    try (exists (Some (snd e)); split; [now apply Hold|reflexivity]).
+  - destruct Hin as [<-|Hin].
+    + cbn [fst snd]. destruct (in_dec N.eq_dec l0 (listeners s)) as [Hi|Hi].
+      * exists (Some (data s)). split; [split; auto|]. cbn. now rewrite N.eqb_refl.
+      * exists None. split; [exact Hi|]. cbn. now rewrite N.eqb_refl.
+    + apply rep_remove_in in Hin as [A B]. exists (Some (snd e)). split; [now apply Hold|].
+      cbn. destruct (N.eqb_spec l0 (fst e)); [congruence|reflexivity].
+  - apply rep_remove_in in Hin as [A B]. exists (Some (snd e)). split; [now apply Hold|].
+    cbn. destruct (N.eqb_spec l0 (fst e)); [congruence|reflexivity].
+Qed.
+
+Lemma reps0_cover s p o l : NoDup (listeners s) -> PSim s p ->
+  In l (listeners (fst (step true s o))) -> In l (map fst (joined_after (p_reps p) o)).
+Proof.
+  intros Hn (_ & HL & _) Hin.
+  assert (Hrm : forall l0, l <> l0 -> In l (map fst (p_reps p)) -> In l (map fst (rep_remove l0 (p_reps p)))).
+  { intros l0 Hne H. apply in_map_iff in H as (e & E & He). apply in_map_iff. exists e. split; [exact E|].
+    apply rep_remove_in. split; [exact He|congruence]. }
+  destruct (is_listener_op o) eqn:Ho.
+  - destruct o as [| | | |l0|l0| |]; try discriminate; cbn [step fst listeners joined_after] in *.
+    + apply ladd_in in Hin. destruct (N.eq_dec l l0) as [->|Hne]; [now left|].
+      right. apply Hrm; [exact Hne|]. apply HL. destruct Hin; [congruence|assumption].
+    + apply lremove_in in Hin as [A B]. apply Hrm; [exact A|]. now apply HL.
+  - destruct (step_sends true s o Hn Ho) as [L _]. rewrite L in Hin.
+    assert (Hj : joined_after (p_reps p) o = p_reps p) by (destruct o; try discriminate; reflexivity).
+    rewrite Hj. now apply HL.
+Qed.
+
+Lemma data_nil_sim a b : (forall k, dget a k = dget b k) -> a = [] -> b = [].
+Proof.
+  intros H ->. destruct b as [|[k v] r]; [reflexivity|]. specialize (H k). cbn in H. rewrite N.eqb_refl in H. discriminate.
+Qed.
+
+Lemma P_step_ok s p o :
+  Inv s -> PSim s p ->
+  let r := step true s o in
+  exists p', P_step p (o, (fst (snd r), sort_outs (snd (snd r)), data (fst r))) = Some p' /\ PSim (fst r) p'.
+Proof.
+  intros HI HP r.
+  pose proof HI as (_ & _ & Hn). pose proof HP as (HA & HL & HR).
+  destruct (step_refines s o HI) as [HI' HE]. fold r in HI', HE.
+  set (a := p_spec p) in *. set (reps0 := joined_after (p_reps p) o).
+  set (ms := snd (snd r)). set (s' := fst r) in *.
+  (* every joined replica follows the store *)
+  assert (F1 : forall e, In e reps0 -> In (fst e) (listeners s') /\ apply_all (snd e) (msgs_for (fst e) (sort_outs ms)) = data s').
+  { intros e He. destruct (reps0_prev s p o e HP He) as (r0 & R1 & R2).
+    pose proof (step_replica true (fst e) s r0 o Hn R1) as H. rewrite R2 in H. exact H. }
+  assert (F2 : forall l, In l (listeners s') -> In l (map fst reps0)) by (intros l; now apply reps0_cover).
+  assert (E' : speq (abs s') (spec_step a o)).
+  { eapply speq_trans; [exact HE|]. now apply spec_step_speq. }
+  (* 1: the store *)
+  assert (C1 : dmap_sim (data s') (sdata (spec_step a o)) = true).
+  { apply dmap_sim_ext. destruct E' as (E1 & _). exact E1. }
+  (* 2: only joined listeners are sent anything *)
+  assert (C2 : forallb (fun m => existsb (fun e => N.eqb (fst m) (fst e)) reps0) (sort_outs ms) = true).
+  { apply forallb_forall. intros [l m] Hm. apply (proj1 (sort_outs_in _ _)) in Hm.
+    pose proof (step_outs_joined true s o l m Hn Hm) as Hl. apply F2 in Hl.
+    apply in_map_iff in Hl as (e & E & He). apply existsb_exists. exists e. split; [exact He|]. cbn [fst]. rewrite E. apply N.eqb_refl. }
+  (* 3: replicas *)
+  set (reps1 := map (fun e => (fst e, apply_all (snd e) (msgs_for (fst e) (sort_outs ms)))) reps0).
+  assert (C3 : forallb (fun e => dmap_sim (snd e) (data s')) reps1 = true).
+  { apply forallb_forall. intros e He. apply in_map_iff in He as (e0 & <- & He0). cbn [snd].
+    rewrite (proj2 (F1 e0 He0)). apply dmap_sim_refl. }
+  (* 4: silence *)
+  assert (C4 : silent_ok a o (sort_outs ms) = true).
+  { destruct o as [k [v|] ttl| | | | | | |i]; try reflexivity; cbn [silent_ok].
+    - destruct (opt_json_eqb (dget (sdata a) k) (Some v)) eqn:Hq; [|reflexivity].
+      destruct HA as (A1 & _). rewrite <- A1 in Hq. cbn [abs sdata] in Hq.
+      unfold ms, r. cbn [step]. destruct (dget (data s) k) as [q|]; [|discriminate]. cbn [opt_json_eqb] in Hq.
+      rewrite Hq. reflexivity.
+    - destruct (fire_late_safe_inv s i HI) as [Hs _]. unfold ms, r. rewrite Hs. reflexivity. }
+  (* 5: joining *)
+  assert (C5 : join_ok a o (sort_outs ms) = true).
+  { destruct o as [| | | |l| | |]; try reflexivity. cbn [join_ok]. rewrite msgs_for_sort.
+    destruct HA as (A1 & _). cbn [abs sdata] in A1. unfold ms, r. cbn [step snd].
+    destruct (data s) as [|e0 d0] eqn:Hd.
+    - rewrite (data_nil_sim [] (sdata a)) by (auto). reflexivity.
+    - destruct (sdata a) as [|e1 d1] eqn:Hs.
+      + exfalso. assert (X : e0 :: d0 = []) by (apply (data_nil_sim [] (e0 :: d0)); auto). discriminate.
+      + rewrite msgs_for_cons. cbn [fst snd]. rewrite N.eqb_refl. cbn [msgs_for filter map]. apply dmap_sim_ext. exact A1. }
+  (* 6: expiry is notified *)
+  assert (C6 : expiry_ok a o reps0 (sort_outs ms) = true).
+  { destruct o as [| | | | | |dt|]; try reflexivity. cbn [expiry_ok].
+    destruct (Z.ltb_spec dt 0) as [|Hdt]; [reflexivity|].
+    apply forallb_forall. intros k _. destruct (expired a (snow a + dt) k) eqn:Hx; [|reflexivity]. cbn [negb orb].
+    destruct (advance_ok s dt HI Hdt) as (s2 & out & F & _ & _ & _ & Hchar).
+    assert (Hms : ms = out).
+    { unfold ms, r. cbn [step]. destruct (Z.ltb_spec dt 0); [lia|]. rewrite F. reflexivity. }
+    specialize (Hchar k). rewrite (expired_speq _ _ _ _ HA) in Hchar.
+    destruct HA as (_ & _ & A3). cbn [abs snow] in A3. rewrite A3, Hx in Hchar.
+    destruct Hchar as (d & v & _ & _ & _ & _ & _ & X6). cbn [listeners] in X6.
+    apply forallb_forall. intros e He. unfold reps0 in He. cbn [joined_after] in He.
+    rewrite msgs_for_sort, Hms. apply existsb_exists. exists (MRemove k v). split.
+    - apply in_msgs_for. apply X6. apply HL. now apply in_map.
+    - cbn. apply N.eqb_refl. }
+  exists (mkP (spec_step a o) reps1). split.
+  - unfold P_step. fold a. fold reps0. fold reps1. rewrite C1, C2, C3, C4, C5, C6. reflexivity.
+  - split; [exact E'|]. cbn [p_reps]. split.
+    + intros l. unfold reps1. rewrite map_map. cbn [fst]. split.
+      * apply F2.
+      * intros H. apply in_map_iff in H as (e & <- & He). apply (F1 e He).
+    + intros e He. apply in_map_iff in He as (e0 & <- & He0). cbn [snd]. apply (F1 e0 He0).
+Qed.
+
+Lemma P_from_ok ops : forall s p, Inv s -> PSim s p -> P_from p (trace_from true s ops) = true.
+Proof.
+  induction ops as [|o r IH]; intros s p HI HP; cbn [trace_from P_from]; [reflexivity|].
+  destruct (P_step_ok s p o HI HP) as (p' & E & HP').
+  pose proof (proj1 (step_refines s o HI)) as HI'.
+  destruct (step true s o) as [s' [ret ms]]. cbn [fst snd] in *. cbn [P_from]. rewrite E. now apply IH.
+Qed.
+
+Lemma psim_init : PSim init p_init.
+Proof.
+  split; [apply abs_init|]. split; [intros l; cbn; tauto|intros e []].
+Qed.
+
+(* the property, as judged on the implementation's traces, holds on every trace of the model *)
+Theorem P_holds ops : P_C14 (trace_of true ops) = true.
+Proof. apply P_from_ok; [apply inv_init|apply psim_init]. Qed.
+
+(* ====================================== the unrepaired code (fixed = false) *)
+
+Lemma refuted_clear : P_C14 (trace_of false h_clear) = false /\ dget (data (run false h_clear)) 1%N = None.
+Proof. split; vm_compute; reflexivity. Qed.
+Lemma refuted_aba : P_C14 (trace_of false h_aba) = false /\ dget (data (run false h_aba)) 1%N = None.
+Proof. split; vm_compute; reflexivity. Qed.
+Lemma refuted_late : P_C14 (trace_of false h_late) = false /\ dget (data (run false h_late)) 1%N = None.
+Proof. split; vm_compute; reflexivity. Qed.
+
+(* the same histories in the repaired code *)
+Lemma repaired_witnesses :
+  dget (data (run true h_clear)) 1%N = Some (JStr 7) /\ dget (data (run true h_aba)) 1%N = Some (JStr 7) /\
+  dget (data (run_from true init (firstn 4 h_late))) 1%N = Some (JStr 7).
+Proof. repeat split; vm_compute; reflexivity. Qed.
+
+Lemma refuted_cleared_persists :
+  exists pre o k v ttl mid,
+    ttl <= 0 /\ o = OSet k (Some v) ttl /\ forallb (fun x => negb (names k x)) mid = true /\
+    dget (data (run_from false (fst (step false (run false pre) o)) mid)) k = None.
+Proof.
+  exists [OSet 1 (Some (JStr 7)) (50 * ms)], (OSet 1 (Some (JStr 7)) 0), 1%N, (JStr 7), 0, [OAdvance (150 * ms)].
+  repeat split; try reflexivity; try lia.
+Qed.
+
+Lemma refuted_fire_late :
+  exists ops i, dget (data (run false ops)) 1%N = Some (JStr 7) /\
+                dget (data (fst (step false (run false ops) (OFireLate i)))) 1%N = None.
+Proof. exists (firstn 3 h_late), 0%nat. split; vm_compute; reflexivity. Qed.
+
+Lemma refuted_refines :
+  exists ops o, ~ speq (abs (fst (step false (run false ops) o))) (spec_step (abs (run false ops)) o).
+Proof.
+  exists (firstn 2 h_clear), (OAdvance (150 * ms)). intros (E1 & _). specialize (E1 1%N). vm_compute in E1. discriminate.
+Qed.
+
+(* ---- lock programs: every method is a sequence of whole critical sections ---- *)
+From Verif Require Import gen.LockProgs.
+Fixpoint sections_only (l : list lockop) : bool :=
+  match l with
+  | [] => true
+  | Lock :: Unlock :: r => sections_only r
+  | _ => false
+  end.
+
+Lemma json_eqb_iff a b : json_eqb a b = true <-> a = b.
+Proof. split; [apply json_eqb_eq|intros ->; apply json_eqb_refl]. Qed.
